@@ -144,7 +144,11 @@ def gen_xpath(rng, u, root_t, all_chains):
             fld = f if (f is not None and rng.random() < 0.55) else None
             if rng.random() < 0.08:
                 fld = rng.choice(fields)
-            steps.append(St(fld, idx_choice(i, None), cls_choice(node_cls(t))))
+            if p != pick[-1] and rng.random() < 0.15:
+                # a step that is ONLY `[]`: a class-less, field-less step with an empty index is still one level, not `//`
+                steps.append(St(None, "empty", None))
+            else:
+                steps.append(St(fld, idx_choice(i, None), cls_choice(node_cls(t))))
             prev = p
     else:
         for _ in range(rng.choice([1, 1, 2, 2, 3, 4])):
